@@ -7,7 +7,7 @@ import fstree
 import gen
 
 RULE = ("random trees with many ties (few distinct sizes/mtimes, equal names in different directories, multi-digit "
-        "sizes) x key lists of length 1..3 over string/numeric/date columns and integer-valued expressions x "
+        "sizes, names and extensions that read like numbers) x key lists of length 1..3 over string/numeric/date columns and integer-valued expressions x "
         "directions x positional/explicit keys x with/without WHERE; (a) CLI output vs the Lean model byte for byte, "
         "(b) oracle: permutation of the unordered run + every adjacent pair ordered under an independent Python "
         "comparator. distinct = distinct (tree, argv); nontrivial = result has >= 2 rows")
@@ -22,6 +22,16 @@ def tie_tree(r):
     mtimes = [1700000000 + 86400 * k for k in r.sample(range(40), r.range(2, 4))]
     ents = fstree.gen_tree(r, max_entries=r.choice([6, 14, 30]), kinds="fdl", sizes=sizes, mtimes=mtimes,
                            adversarial=r.chance(1, 5))
+    if r.chance(1, 2):
+        # names and extensions that read like numbers are text all the same: `10` sorts before `9`
+        dirs = [""] + [e["path"] for e in ents if e["kind"] == "d"]
+        have = {e["path"] for e in ents}
+        for nm in r.sample(["9", "10", "100", "25", "1e3", "7.5", "inf", "-3", "+4", "0x10", "app.log.9", "app.log.10", "app.log.100", "b.2", "b.11"], r.range(3, 8)):
+            d = r.choice(dirs)
+            p = (d + "/" if d else "") + nm
+            if p not in have:
+                have.add(p)
+                ents.append({"path": p, "kind": "f", "size": r.choice(sizes), "mode": 0o644, "mtime": r.choice(mtimes), "lines": 0})
     return ents
 
 
